@@ -266,6 +266,7 @@ func unpackCollectionTarWithOptions(reader io.Reader, outputDir string, force bo
 
 	manifest, err := validateExtractedCollection(outputDir, files)
 	if err != nil {
+		removeDirectoryEntries(outputDir)
 		return err
 	}
 
@@ -282,7 +283,7 @@ func unpackCollectionTarWithOptions(reader io.Reader, outputDir string, force bo
 	return nil
 }
 
-func unpackTarWithOptions(reader io.Reader, outputDir string, force bool, options ArchiveOptions, trackIntegrity bool) (map[string]unpackedFileIntegrity, error) {
+func unpackTarWithOptions(reader io.Reader, outputDir string, force bool, options ArchiveOptions, trackIntegrity bool) (_ map[string]unpackedFileIntegrity, unpackErr error) {
 	slog.Info("retriever archive unpacking started",
 		slog.String("output_dir", outputDir),
 		slog.Bool("force", force),
@@ -296,6 +297,13 @@ func unpackTarWithOptions(reader io.Reader, outputDir string, force bool, option
 	if err := prepareOutputDirectory(outputDir, force); err != nil {
 		return nil, err
 	}
+
+	// The output directory is empty at this point, so whatever a failed unpack leaves in it is partial output.
+	defer func() {
+		if unpackErr != nil {
+			removeDirectoryEntries(outputDir)
+		}
+	}()
 
 	tarReader := tar.NewReader(reader)
 	seen := map[string]struct{}{}
@@ -370,6 +378,18 @@ func unpackTarWithOptions(reader io.Reader, outputDir string, force bool, option
 	})
 
 	return integrity, nil
+}
+
+// removeDirectoryEntries removes everything inside dir and keeps the directory itself.
+func removeDirectoryEntries(dir string) {
+	entries, err := os.ReadDir(dir)
+	if err != nil {
+		return
+	}
+
+	for _, entry := range entries {
+		_ = os.RemoveAll(filepath.Join(dir, entry.Name()))
+	}
 }
 
 func unpackTar(reader io.Reader, outputDir string, force bool) error {
